@@ -229,6 +229,25 @@ func newGateEnv(cfg GateCfg) (*gateEnv, error) {
 			return nil, err
 		}
 	}
+	// somebody has looked at the pages before, when N2 did not produce t1 yet: whatever nsqadmin learnt then, an action
+	// goes to the nsqd that produce the topic NOW
+	early := c17Cluster(cfg.Bad)
+	l2 := early.Lookupd["L2"]
+	l2.Nodes = LNodeMap{"N1": {Topics: []string{cn("t1")}}, "N2": {Topics: []string{cn("t2")}}}
+	early.Lookupd["L2"] = l2
+	n2 := early.Nsqd["N2"]
+	n2.Topics = TopicMap{cn("t2"): n2.Topics[cn("t2")]}
+	early.Nsqd["N2"] = n2
+	cell.set(early)
+	hc := &http.Client{Timeout: 20 * time.Second}
+	for _, p := range []string{"/api/topics/" + url.PathEscape(cn("t1")), "/api/topics/" + url.PathEscape(cn("t1")) + "/" + url.PathEscape(cn("c1")), "/api/nodes"} {
+		if resp, err := hc.Get(fmt.Sprintf("http://127.0.0.1:%d%s", e.port, p)); err == nil {
+			io.Copy(io.Discard, resp.Body)
+			resp.Body.Close()
+		}
+	}
+	cell.set(c17Cluster(cfg.Bad))
+	cell.takeLog()
 	return e, nil
 }
 
